@@ -231,3 +231,110 @@ Proof.
     destruct Cs as [C|C]; [left|right; now apply (rows_id_in kids n)].
     apply (rep_all _ _ R3). cbn [set_all forest_of]. fold f. rewrite <- (rows_ids _ 0), R3rows. now apply in_map.
 Qed.
+
+(* ---- add_child(node): shallow or deep copy of a node of the same or another tree ---- *)
+Lemma RepW_get2 hw w ti sti : RepW hw w ->
+  match h_get hw ti, h_get hw sti, get_tree w ti, get_tree w sti with
+  | Some h, Some hs, Some t, Some st => Rep h t /\ Rep hs st
+  | Some _, None, Some _, None => True
+  | None, Some _, None, Some _ => True
+  | None, None, None, None => True
+  | _, _, _, _ => False
+  end.
+Proof.
+  intros RW. assert (G1 := RepW_get hw w ti RW). assert (G2 := RepW_get hw w sti RW).
+  destruct (h_get hw ti), (h_get hw sti), (get_tree w ti), (get_tree w sti); try contradiction; auto.
+Qed.
+
+Theorem sim_op_add_node hw w ti p sti src explicit k b deep : WFw w -> RepW hw w ->
+  Sim (h_op_add_node hw ti p sti src explicit k b deep) (op_add_node w ti p sti src explicit k b deep).
+Proof.
+  intros W RW. unfold h_op_add_node, op_add_node. assert (G := RepW_get2 hw w ti sti RW).
+  destruct (h_get hw ti) as [h|] eqn:Gh; destruct (h_get hw sti) as [hs|] eqn:Ghs;
+    destruct (get_tree w ti) as [t|] eqn:Gt; destruct (get_tree w sti) as [st|] eqn:Gst; try contradiction; try (now apply Sim_same).
+  destruct G as (R & Rs).
+  assert (Wt := WFw_tree w ti t W Gt). assert (Wst := WFw_tree w sti st W Gst).
+  set (f := forest_of t). set (fs := forest_of st).
+  (* liveness *)
+  assert (Ls := h_live_ids hs st src Wst Rs). fold fs in Ls.
+  destruct (get_node src fs) as [s|] eqn:Gn.
+  2:{ replace (h_live hs src) with false; [now apply Sim_same|]. destruct (h_live hs src); [|reflexivity].
+      destruct (get_node_complete src fs (proj1 Ls eq_refl)) as (s & X). congruence. }
+  destruct (get_node_spec src fs s Gn) as (Ps & Rsrc).
+  replace (h_live hs src) with true by (symmetry; apply Ls; rewrite <- Rsrc; unfold ids; now apply in_map). cbn [andb].
+  assert (Pl := h_plive_path h t p Wt R). fold f in Pl.
+  destruct (parent_path p f) as [pq|] eqn:Gp.
+  2:{ replace (h_plive h p) with false; [now apply Sim_same|]. destruct (h_plive h p); [|reflexivity].
+      destruct (proj1 Pl eq_refl) as (pq & X). discriminate. }
+  replace (h_plive h p) with true by (symmetry; apply Pl; now exists pq). cbn [negb].
+  destruct (parent_path_get p f pq Gp) as (ch & Gc). rewrite Gc.
+  rewrite (rep_typed h t R), (rep_typed hs st Rs).
+  destruct (typed t && negb (typed st)); [now apply Sim_same|].
+  set (dp := match deep with Some x => x | None => false end).
+  destruct (dp && match explicit with Some _ => true | None => false end); [now apply Sim_same|].
+  (* source_node._parent is self *)
+  destruct (row_of_node fs 0 s Ps) as ([[cur n0] inf0] & Hr & En & Ei). cbn in En, Ei. rewrite Rsrc in En. subst n0.
+  destruct (rep_node hs st Rs _ Hr) as (Hp & _). cbn [r_id r_par fst snd] in Hp. rewrite Hp.
+  assert (Pof : parent_of src fs = Some cur) by (apply parent_of_rows; [apply Wst|now exists inf0]). rewrite Pof.
+  destruct (Nat.eqb ti sti && Nat.eqb cur p); [now apply Sim_same|].
+  assert (Ed : hdid hs src = rdid s) by (unfold hdid; rewrite <- Rsrc; now rewrite (rep_info hs st s Rs Ps)).
+  rewrite Ed.
+  destruct (match explicit with Some e => negb (did_eqb e (rdid s)) | None => false end); [now apply Sim_same|].
+  (* deep copy into the own branch *)
+  assert (Ea : dp && Nat.eqb ti sti && (if Nat.eqb p 0 then false else h_is_anc (h_fuel hs) hs src p) = dp && Nat.eqb ti sti && is_desc_or_self src p fs).
+  { destruct dp; [|reflexivity]. destruct (Nat.eqb ti sti) eqn:Eti; [|reflexivity]. cbn [andb]. apply Nat.eqb_eq in Eti. subst sti.
+    assert (hs = h) by congruence. assert (st = t) by congruence. subst hs st.
+    unfold is_desc_or_self. fold fs in Gn. rewrite Gn. destruct (Nat.eqb p 0) eqn:E0.
+    - apply Nat.eqb_eq in E0. subst p. symmetry. destruct (existsb (Nat.eqb 0) (ids_t s)) eqn:X; [|reflexivity].
+      apply existsb_exists in X. destruct X as (m & Hm & E). apply Nat.eqb_eq in E. subst m. exfalso. apply (wf_pos t Wt).
+      unfold ids_t in Hm. apply in_map_iff in Hm. destruct Hm as (y & <- & Hy). unfold ids. apply in_map.
+      destruct (pre_f_segment _ s Ps) as (a0 & b0 & E0). fold fs. rewrite E0. apply in_or_app. right. apply in_or_app. now left.
+    - apply Nat.eqb_neq in E0. apply (is_anc_agree h t Wt R src p s Gn).
+      destruct (proj1 (parent_path_live p f) (ex_intro _ pq Gp)) as [X|X]; [contradiction|exact X]. }
+  rewrite Ea. destruct (dp && Nat.eqb ti sti && is_desc_or_self src p fs); [now apply Sim_same|].
+  rewrite (before_ok_agree h t p pq ch _ Wt R Gp Gc).
+  destruct (negb (before_ok (norm_before b) ch)); [now apply Sim_same|].
+  destruct (negb (typed t) && typed st); [now apply Sim_same|].
+  rewrite (repw_next hw w RW).
+  assert (Fn : ~ In (next w) (ids f)) by (intros X; apply (WFw_tree_lt w ti t _ W Gt) in X; lia).
+  assert (Nz : next w <> 0) by (destruct W; lia).
+  set (id := match explicit with Some e => e | None => rdid s end).
+  rewrite (collides_agree h t p id Wt R).
+  replace (if typed t then match k with Some _ => k | None => Some [99; 104; 105; 108; 100]%Z end else None) with (default_kind t k)
+    by (unfold default_kind; reflexivity).
+  assert (Ei' : hinf hs src = rinfo s) by (rewrite <- Rsrc; now apply (rep_info hs st s Rs Ps)). rewrite Ei'.
+  set (inf := I (i_obj (rinfo s)) (i_eqc (rinfo s)) (i_hash (rinfo s)) (i_isstr (rinfo s)) (i_name (rinfo s)) id (default_kind t k) []).
+  destruct (collides t p id).
+  - split; [reflexivity|]. cbn [snd]. unfold h_put, h_bump, bump. cbn [htrees hnext trees next].
+    rewrite (repw_next hw w RW). apply (RepW_put_l hw w ti _ t); auto. now apply Rep_dangling.
+  - assert (R3 := Rep_touch _ _ p (Rep_add_leaf h t p pq ch (next w) inf (norm_before b) Wt R Gp Gc Fn Nz)).
+    set (h3 := touch_root (set_chl (h_register (h_init h (next w) p inf) (next w)) p
+                  (place_ids (norm_before b) (next w) (hch (h_register (h_init h (next w) p inf) (next w)) p))) p) in *.
+    destruct dp.
+    + (* deep *)
+      assert (Sub : forall y, In y (pre_f (rch s)) -> In y (pre_f fs)) by (intros y Hy; now apply (pre_f_sub fs s)).
+      assert (NDs := NoDup_ids_sub fs s (wf_nodup st Wst) Ps). rewrite ids_t_unfold in NDs. inversion NDs as [|y ys Nn NDc]; subst y ys.
+      assert (Ic : incl (ids (rch s)) (ids fs)) by (intros x Hx; unfold ids in *; apply in_map_iff in Hx; destruct Hx as (y & <- & Hy); apply in_map; now apply Sub).
+      destruct (add_from_below (typed t) hs (h_fuel hs) (rch s) src) with (h := h3) (dst := next w) (nx := S (next w)) as (h4 & E4 & Bl).
+      { rewrite <- Rsrc. now apply (rep_node_children hs st s Wst Rs). }
+      { intros y Hy. split; [apply (rep_node_children hs st y Wst Rs); now apply Sub|apply (rep_info hs st y Rs); now apply Sub]. }
+      { now apply (fuel_enough hs st). }
+      { lia. }
+      rewrite E4. destruct (copy_ids_seq (typed t) None (S (next w)) (rch s)) as (S1 & S2).
+      destruct (copy_f (typed t) None (S (next w)) (rch s)) as [kids n'] eqn:Ec. cbn [fst snd] in *.
+      rewrite register_all_eq. split; [reflexivity|]. cbn [snd]. unfold h_put, put_tree. cbn [htrees trees next].
+      apply RepW_put; [assumption|].
+      apply (Rep_graft h3 h4 t p pq ch (next w) inf (norm_before b) kids Wt Gp Gc Fn Nz R3); auto.
+      * unfold h3. destruct (touch_fields (set_chl (h_register (h_init h (next w) p inf) (next w)) p
+                  (place_ids (norm_before b) (next w) (hch (h_register (h_init h (next w) p inf) (next w)) p))) p) as (_ & T2 & _).
+        rewrite T2. cbn [set_chl h_register set_regidx h_init add_all set_inf set_tr set_par hch].
+        assert (Pn : p <> next w).
+        { intros E. destruct (proj1 (parent_path_live p f) (ex_intro _ pq Gp)) as [X|X]; [congruence|]. apply Fn. now rewrite <- E. }
+        rewrite (upd_neq _ p _ (next w)) by congruence. now rewrite upd_eq.
+      * rewrite S1. apply seq_NoDup.
+      * intros z Hz. rewrite S1 in Hz. apply in_seq in Hz. refine (conj _ (conj _ _)); try lia.
+        intros X. apply (WFw_tree_lt w ti t _ W Gt) in X. lia.
+    + (* shallow *)
+      rewrite register_all_eq. split; [reflexivity|]. cbn [snd]. unfold h_put, put_tree. cbn [htrees trees next].
+      apply RepW_put; [assumption|]. exact R3.
+Qed.
